@@ -118,13 +118,35 @@ class NSub(NName):   # dispatches through its by-name base
     pass
 
 
+class NKw(Node):     # printer takes the trailing comment through **options
+    pass
+
+
+NESTED = [0]
+
+
+class NRepr(Node):   # uses the documented `__repr__ = pretty_repr` idiom (through a counting shim)
+    def __repr__(self):
+        NESTED[0] += 1
+        try:
+            return P.pretty_repr(self)
+        finally:
+            NESTED[0] -= 1
+
+    __str__ = __repr__
+
+
 NT1 = collections.namedtuple('NT1', 'only')
 NT2 = collections.namedtuple('NT2', 'first second')
 
-KINDS = {'NT': NT, 'NP': NP, 'NPred': NPred, 'NName': NName, 'NSub': NSub}
+KINDS = {'NT': NT, 'NP': NP, 'NPred': NPred, 'NName': NName, 'NSub': NSub, 'NKw': NKw, 'NRepr': NRepr}
+REPRS = {}           # id(value) -> repr(value) taken OUTSIDE any print (independent of the code under test's state)
 
 
 def _body(v, ctx, me):
+    if NESTED[0]:
+        # a print nested inside the fall-back repr() of a pretty_repr class: healthy, not a fault site
+        return P.pretty_call(ctx, type(v), *v.kids, name=v.name)
     i = COUNT[0]
     COUNT[0] += 1
     plan = PLAN.get(i)
@@ -147,7 +169,8 @@ def _fire(i, plan, v, me):
         _raise(EXC[arg], payload)
     if mode == 'nondoc':
         return NONDOCS[arg]
-    return repr(v)          # mode == 'repr': the healthy reference
+    # mode == 'repr': the healthy reference returns the value's repr as it reads outside any print
+    return REPRS.get(id(v)) or repr(v)
 
 
 BUNDLED_CONTAINERS = (list, tuple, dict)
@@ -172,6 +195,8 @@ def wrap_bundled(types):
             @functools.wraps(fn)
             def wrapper(value, ctx, *a, **kw):
                 sig.bind(value, ctx, *a, **kw)      # same TypeError as the real printer, before any body runs
+                if NESTED[0]:
+                    return fn(value, ctx, *a, **kw)     # inside a nested pretty_repr print: not a fault site
                 i = COUNT[0]
                 COUNT[0] += 1
                 plan = PLAN.get(i)
@@ -205,6 +230,14 @@ def setup():
     def prn_predicate(v, ctx):
         return _body(v, ctx, prn_predicate)
 
+    @register_pretty(NKw)
+    def prn_kwargs(v, ctx, **options):
+        return _body(v, ctx, prn_kwargs)
+
+    @register_pretty(NRepr)
+    def prn_reprclass(v, ctx):
+        return _body(v, ctx, prn_reprclass)
+
     @register_pretty(NName.__module__ + '.' + NName.__qualname__)
     def prn_byname(v, ctx):
         return _body(v, ctx, prn_byname)
@@ -220,8 +253,12 @@ def gen_tree(r, budget, depth=0, pool=None):
         node = ['leaf', r.choice([1, 'leaf', None, 2.5, 'a longer leaf string', True])]
     elif k < 0.70 and budget[0] > 0:
         budget[0] -= 1
-        kind = r.choice(['NT', 'NT', 'NP', 'NP', 'NPred', 'NName', 'NSub'])
-        kids = [gen_tree(r, budget, depth + 1, pool) for _ in range(r.randrange(0, 3))]
+        kind = r.choice(['NT', 'NT', 'NP', 'NP', 'NPred', 'NName', 'NSub', 'NKw', 'NRepr'])
+        if kind == 'NRepr':
+            # leaves only below: its fall-back repr() is a nested pformat that must stay warning-free
+            kids = [['leaf', r.choice([1, 'leaf', None, 2.5])] for _ in range(r.randrange(0, 3))]
+        else:
+            kids = [gen_tree(r, budget, depth + 1, pool) for _ in range(r.randrange(0, 3))]
         node = ['obj', kind, 'n%d' % r.randrange(100), kids]
         pool[0] += 1
     elif k < 0.78:
@@ -391,7 +428,11 @@ def execute(spec):
     wrapped = 0
     if spec.get('bundled', 'none') != 'none':
         wrapped = wrap_bundled(BUNDLED_CONTAINERS + (BUNDLED_LEAVES if spec['bundled'] == 'all' else ()))
-    v = build(tree, [])
+    env = []
+    v = build(tree, env)
+    REPRS.clear()
+    for x in env:
+        REPRS[id(x)] = repr(x)
     SETTINGS.clear()
     SETTINGS.update(spec.get('settings') or {})
     width = spec['width']
